@@ -12,6 +12,10 @@
 (*  race   a Go race detector report (-race build), keyed by the two       *)
 (*         functions involved = an access pair that Snapshot.tla's NoRace  *)
 (*         forbids                                                         *)
+(*  reqpair  the same frame / fault script through the real processor and  *)
+(*         three real CPTV recorders with and without its test-recording   *)
+(*         requests (storage failing around some of them): the requests    *)
+(*         neither crash the pipeline nor change any motion recording      *)
 (*  pipeline  the frames the continuous recorder stored vs. the frames     *)
 (*         sent (a request must not corrupt or stall processing)           *)
 (***************************************************************************)
@@ -29,6 +33,11 @@ TNext == /\ l <= Len(Trace) /\ l' = l + 1
                         [] E.ev = "race" -> {"C16:data-race[" \o E.pair \o "]"}
                         [] E.ev = "info" -> (IF E.ok THEN {} ELSE {"C16:camera-info-inconsistent"})
                         [] E.ev = "pipeline" -> (IF E.stored # E.expected THEN {"C16:pipeline-disturbed"} ELSE {})
+                        [] E.ev = "reqpair" ->
+                          (IF E.panic_with /\ ~E.panic_without THEN {"C16:request-crashes-pipeline"} ELSE {})
+                          \cup (IF ~E.panic_with /\ ~E.panic_without /\
+                                   (\E i \in DOMAIN E.without : \A j \in DOMAIN E.with : E.with[j] # E.without[i])
+                                THEN {"C16:request-changes-recordings"} ELSE {})
                         [] E.ev = "reqerr" -> {"C16:request-failed"}
                         [] E.ev = "crash" -> {"C16:daemon-crashed"}
                         [] OTHER -> {} } :
